@@ -1077,7 +1077,9 @@ func (s *State) evalForInteger(fe *ast.ForExpression, start *int64, end int64, n
 				return s.Errorf("for loop unexpected control type %s", r.ControlType.String())
 			}
 		default:
-			lastEval = nextEval
+			// The value of this iteration, not the (live) loop variable: a later break/continue, or another loop
+			// taking the register over once it's released, doesn't change it.
+			lastEval = object.CopyRegister(nextEval)
 		}
 	}
 	return lastEval
